@@ -100,8 +100,9 @@ def gen(rng, flavour):
 
 
 class BufferHarness:
-    def __init__(self, A):
+    def __init__(self, A, execute=None):
         self.A = A
+        self.execute = execute or simrt.execute
 
     def run(self, prog, strategy, flavour, lines=True, delays=None):
         A = self.A
@@ -343,10 +344,10 @@ class BufferHarness:
                 s.spawn(foreign_thread(fi, fa), f'F{fi}')
 
         def pre(s):
-            if delays:
+            if delays and hasattr(s, 'line_delays'):
                 s.line_delays = [dict(d) for d in delays]
 
-        return simrt.execute(main, strategy, max_steps=120000, lines=lines, watchdog=60.0, pre=pre)
+        return self.execute(main, strategy, max_steps=120000, lines=lines, watchdog=60.0, pre=pre)
 
 
 # ---------------------------------------------------------------------------
@@ -605,11 +606,21 @@ class BufferCheck(Check):
         simrt.prepare([A])
         self.h = BufferHarness(A)
 
+    REAL = {'quick': 16, 'thorough': 320}
+
     def cases(self, tier, seed):
-        for i in range(self.SIZES[tier]):
+        n = self.SIZES[tier]
+        nreal = self.REAL[tier] if self.pid in ('C03', 'C07') else 0
+        every = max(1, n // max(1, nreal)) if nreal else 0
+        for i in range(n):
+            if nreal and i % every == 0 and i // every < nreal:
+                yield {'real': True, 'seed': (seed << 32) + i}
             yield {'seed': (seed << 32) + i}
 
     def run_case(self, case):
+        if case.get('real'):
+            from vf import engine_b
+            return engine_b.batch_case('buffer', self.flavour, case['seed'], 10, 'real_executions_with_foreign_threads')
         rng = random.Random(case['seed'])
         prog = gen(rng, self.flavour)
         if prog['foreign']:
